@@ -67,7 +67,7 @@ def _line_index(lines: T.List[T.Tuple[int, str]], lineno: int) -> int:
 
 
 def oracle_step(bf: str, af: str, cmd: T.Dict[str, T.Any], status: str, meta: T.Dict[str, T.Any],
-                cap_applied: bool = False) -> T.Dict[str, T.Any]:
+                cap_applied: bool = False, nested: bool = False) -> T.Dict[str, T.Any]:
     """checks of ONE command: returns violations [(key, what)], tags, statement pairs for the Lean comparison"""
     viol: T.List[T.Tuple[str, str]] = []
     tags: T.List[str] = []
@@ -323,6 +323,8 @@ def oracle_step(bf: str, af: str, cmd: T.Dict[str, T.Any], status: str, meta: T.
         return res
 
     def whole_file_cause() -> T.Optional[str]:
+        if nested:
+            return 'splice:edited-node-inside-another-edited-node'
         if seps:
             return 'splice:line-separator-other-than-LF-before-edit'
         if rawnl:
@@ -465,7 +467,8 @@ def run_case(case: T.Dict[str, T.Any]) -> T.Dict[str, T.Any]:
                 bf = R.as_read(before_all.get('meson.build', ''))
                 af_raw = after_all.get('meson.build', '')
                 af = R.as_read(af_raw)
-                step = oracle_step(bf, af, group[0], status, meta, cap_applied=bool(recs))
+                step = oracle_step(bf, af, group[0], status, meta, cap_applied=bool(recs),
+                                   nested=any(R.nested_works(r['works']) for r in recs))
                 _collect(out, step, case, ci, group[0], bf, af, status)
                 _lean_apply(out, recs, bf, af_raw, root)
                 # `info` reports the value
@@ -542,6 +545,16 @@ def _lean_apply(out: T.Dict[str, T.Any], recs: T.List[T.Dict[str, T.Any]], bf: s
             fields += [w['meta'], w['tree']]
         expected = ('ERR:' + rec['exc']) if rec['exc'] else enc(af)
         out['lean'].append(('apply', 'apply ' + '|'.join(fields), expected, {'before': bf, 'works': works}))
+        # the order in which the real apply_changes handled the printed work items vs the model's sorted order
+        if rec['order'] is not None and -1 not in rec['order'] and not rec['exc']:
+            printed = [i for i, w in enumerate(works) if not w['meta'].startswith('1,')]
+            line = 'order ' + '|'.join([str(rec['nm']), str(rec['nr'])] + [w['meta'] for w in works])
+            out['lean'].append(('order', line, ','.join(str(i) for i in rec['order']), {'before': bf, 'works': works, 'printed': printed}))
+            if len(rec['order']) > 1:
+                out['tags'].append('multi-node-apply')
+                ms = [[int(x) for x in works[i]['meta'].split(',')] for i in rec['order'] if works[i]['meta'].startswith('0,')]
+                if any(a[2] == b[2] for a, b in zip(ms, ms[1:])):
+                    out['tags'].append('multi-node-apply:same-line')
 
 
 # ================================================================================================ case generation
@@ -585,6 +598,14 @@ CORPUS_MESON = [
      [{'type': 'target', 'target': 't1', 'operation': 'extra_files_rm', 'sources': ['e1.txt']},
       {'type': 'target', 'target': 't0', 'operation': 'extra_files_add', 'sources': ['newe0.txt']},
       {'type': 'target', 'target': 't1', 'operation': 'target_rm'}]),
+    ("project('p')\nprog = executable('prog', files('s0.c', 's1.c'), files('s2.c', 's3.c'), install: false) # trailing\nz = 1\n",
+     [{'type': 'target', 'target': 'prog', 'operation': 'src_rm', 'sources': ['s0.c', 's2.c']},
+      {'type': 'target', 'target': 'prog', 'operation': 'src_add', 'sources': ['new0.c']}]),
+    ("project('p')\nprog = executable('prog', ['s0.c', 's1.c'], ['s2.c', 's3.c'], extra_files: [files('e0.txt'), files('e1.txt', 'e2.txt')])\nz = 1\n",
+     [{'type': 'target', 'target': 'prog', 'operation': 'src_rm', 'sources': ['s3.c', 's1.c']},
+      {'type': 'target', 'target': 'prog', 'operation': 'extra_files_rm', 'sources': ['e0.txt', 'e2.txt']}]),
+    ("project('p')\nprog = executable('prog', 's0.c', 's1.c', files('s2.c', 's3.c'), install: false) # trailing\nz = 1\n",
+     [{'type': 'target', 'target': 'prog', 'operation': 'src_rm', 'sources': ['s0.c', 's2.c']}]),
     ("project('p', default_options: ['warning_level=1'])\nt0 = executable('t0', 's0.c')\n",
      [{'type': 'default_options', 'operation': 'set', 'options': {'warning_level': '3', 'werror': 'true'}},
       {'type': 'default_options', 'operation': 'delete', 'options': {'werror': None}}]),
@@ -807,6 +828,9 @@ def _absorb(ctx: Ctx, cases: T.List[T.Dict[str, T.Any]], results: T.List[T.Dict[
         for a, (kind, expected, c) in zip(ans, lean_exp):
             ctx.extra['disagreements_checked'] = ctx.extra.get('disagreements_checked', 0) + 1
             ctx.tag('lean:' + kind)
+            if kind == 'order':
+                # the model lists every queued item; the hook saw only the printed ones (removals print nothing)
+                a = ','.join(x for x in a.strip().split(',') if x.isdigit() and int(x) in c['printed'])
             if a.strip() != expected.strip():
                 d = {'kind': 'lean-' + kind, 'model': a[:300], 'impl': expected[:300]}
                 if kind in ('same', 'listop'):
